@@ -4,8 +4,13 @@ import (
 	"fmt"
 	"math/big"
 	"math/rand"
+	"sort"
 	"strings"
 	"testing"
+	"time"
+
+	"cosmossdk.io/collections"
+	"cosmossdk.io/math"
 
 	keepertest "github.com/tellor-io/layer/testutil/keeper"
 	otypes "github.com/tellor-io/layer/x/oracle/types"
@@ -308,4 +313,109 @@ func TestC06Mode(t *testing.T) {
 		}
 	}
 	rec(nil)
+}
+
+// TestC06EndBlock drives the real SetAggregatedReport (the end blocker's aggregation pass) with several
+// closing rounds in one block whose reports carry different aggregation methods: the aggregate stored for
+// each query must be the weighted median / weighted mode of that query's reports according to ITS method
+// (the dispatch, the collection of a round's reports through the Id index, and SetAggregate are exercised).
+func TestC06EndBlock(t *testing.T) {
+	out := newOut(t, "c06_endblock")
+	defer out.Close()
+	r := rand.New(rand.NewSource(seed() + 2))
+	n := count(160, 6000)
+	k, _, _, _, _, ctx0 := keepertest.OracleKeeper(t)
+	metaID := uint64(1)
+	for i := 0; i < n; i++ {
+		height := int64(10 + i)
+		ctx := ctx0.WithBlockHeight(height).WithBlockTime(time.UnixMilli(1_700_000_000_000 + int64(i)*1000))
+		nq := 2 + r.Intn(3)
+		type round struct {
+			qid    []byte
+			method string
+			rs     []aggRep
+			id     uint64
+		}
+		var rounds []round
+		for q := 0; q < nq; q++ {
+			method := pick(r, "weighted-median", "weighted-mode", "weighted-mode", "")
+			forMode := method != "weighted-median"
+			rs := genReports(r, forMode, false)
+			if len(rs) > 6 {
+				rs = rs[:6]
+			}
+			if forMode && r.Intn(2) == 0 && len(rs) >= 3 {
+				// mode != median on purpose: values a<c<b with powers 2,3,2 style
+				rs = []aggRep{{rs[0].who, 2, "01", 3}, {rs[1].who, 3, "03", 4}, {rs[2].who, 2, "02", 5}}
+			}
+			if totalPower(rs).Cmp(pow2(62)) >= 0 {
+				continue
+			}
+			// query ids sort in generation order or reversed, so that median rounds come both before and after mode rounds
+			qid := make([]byte, 32)
+			if i%2 == 0 {
+				qid[0] = byte(q + 1)
+			} else {
+				qid[0] = byte(200 - q)
+			}
+			qid[31] = byte(i)
+			qid[30] = byte(i >> 8)
+			rounds = append(rounds, round{qid, method, rs, metaID})
+			metaID++
+		}
+		for _, rd := range rounds {
+			err := k.Query.Set(ctx, collections.Join(rd.qid, rd.id), otypes.QueryMeta{Id: rd.id, Amount: math.ZeroInt(), Expiration: uint64(height) - uint64(r.Intn(2)),
+				RegistrySpecBlockWindow: 2, HasRevealedReports: true, QueryData: rd.qid, QueryType: "SpotPrice"})
+			if err != nil {
+				t.Fatal(err)
+			}
+			for _, x := range rd.rs {
+				m := otypes.MicroReport{Reporter: repName(x.who), Power: x.power, Value: x.value, BlockNumber: x.blk, QueryId: rd.qid,
+					AggregateMethod: rd.method, QueryType: "SpotPrice"}
+				if err := k.Reports.Set(ctx, collections.Join3(rd.qid, []byte(repName(x.who)), rd.id), m); err != nil {
+					t.Fatal(err)
+				}
+			}
+		}
+		var runErr error
+		func() {
+			defer func() {
+				if p := recover(); p != nil {
+					runErr = fmt.Errorf("panic: %v", p)
+				}
+			}()
+			runErr = k.SetAggregatedReport(ctx)
+		}()
+		for _, rd := range rounds {
+			a, err := k.Aggregates.Get(ctx, collections.Join(rd.qid, uint64(ctx.BlockTime().UnixMilli())))
+			var ap *otypes.Aggregate
+			if err == nil {
+				ap = &a
+			}
+			if runErr != nil {
+				ap = nil
+			}
+			// the Id index returns the reports in key order (reporter bytes): the model gets them in that order
+			rs := append([]aggRep(nil), rd.rs...)
+			sort.Slice(rs, func(a, b int) bool { return repName(rs[a].who) < repName(rs[b].who) })
+			// drop duplicates of one reporter (a later Set replaces the earlier)
+			var uniq []aggRep
+			for j, x := range rs {
+				if j+1 < len(rs) && rs[j+1].who == x.who {
+					continue
+				}
+				uniq = append(uniq, x)
+			}
+			kind := "endblock/" + rd.method
+			if rd.method == "weighted-median" {
+				out.Emit(Case{Coq: fmt.Sprintf("MedianCase %s %s", coqReports(uniq), coqAggregate(ap, err)), Kind: kind,
+					Nontrivial: len(uniq) >= 2 && distinctVals(uniq) >= 2 && len(rounds) >= 2, Key: fmt.Sprint("eb", seed(), i, rd.id),
+					Human: map[string]interface{}{"reports": len(uniq), "rounds_in_block": len(rounds), "method": rd.method, "error": fmt.Sprint(runErr)}})
+			} else {
+				out.Emit(Case{Coq: fmt.Sprintf("ModeCase %s %s", coqReports(uniq), clist([]string{coqAggregate(ap, err)})), Kind: kind,
+					Nontrivial: len(uniq) >= 2 && distinctVals(uniq) >= 2 && len(rounds) >= 2, Key: fmt.Sprint("eb", seed(), i, rd.id),
+					Human: map[string]interface{}{"reports": len(uniq), "rounds_in_block": len(rounds), "method": rd.method, "error": fmt.Sprint(runErr)}})
+			}
+		}
+	}
 }
